@@ -136,6 +136,8 @@ def state_dependent(e):
 def _smooth_exponent(b):
     """x**b is smooth in x for every x: b a non-negative integer (a symbolic exponent is not known to be one)"""
     if isinstance(b, Tens):
+        if b.meta.get("float"):
+            return False  # a float-typed exponent array: d/dx x**y = y * x**(y-1) is 0 * inf at x = 0, y = 0
         return all(_smooth_exponent(e) for e in b.data)
     if isinstance(b, Poly):
         b = b.as_number()
@@ -548,6 +550,20 @@ def sym_index(entry, picks, all_indexed):
         e2 = alg.map_atoms(e, f)
         if not [a for a in e2.atoms() if SO.varies(a)]:
             return e2
+    if not all_indexed and all(i == 0 for _, i, _ in picks):
+        # position 0 of SOME grid axes of a field: the restriction of the field to that hyperplane, an uninterpreted
+        # "At0[atom, axes]" of the remaining axes.  (chi * At0[x] = chi * x when chi is the indicator of the same
+        # hyperplane: used by partial .at updates.)
+        axes_s = ",".join(str(afr) for afr, _, _ in sorted(picks))
+
+        def g(a):
+            if SO.varies(a) and a[0] in ("u", "F", "fn", "carry", "I"):
+                return Poly.atom(("At0", Poly.atom(a), axes_s))
+            return None
+
+        e3 = alg.map_atoms(e, g)
+        if all(a[0] == "At0" or not SO.varies(a) or a[0] in ("k", "ind") for a in e3.atoms()):
+            return e3
     raise Unsupported(f"integer index on a symbolic axis of an entry that varies along it: {entry}")
 
 
@@ -771,6 +787,23 @@ def at_update(interp, proxy, kind, args, kwargs, node):
         sel = Poly.const(1)
         for j in zero_axes:
             sel = sel * alg.ind("eq", Poly.atom(("k", j, D, "half" if j == D - 1 else "full")), Poly())
+        want_axes = ",".join(str(D - j) for j in sorted(zero_axes, reverse=True))
+        want_sorted = ",".join(str(x) for x in sorted(D - j for j in zero_axes))
+
+        def unwrap(a):
+            if a[0] == "At0" and a[2] == want_sorted:
+                return a[1]
+            return None
+
+        if isinstance(v, Tens):
+            v = Tens(tuple(d for d in v.shape), [alg.map_atoms(e, unwrap) for e in v.data], v.meta)
+            # the value lives on the remaining axes: broadcast it over the updated hyperplane
+            if v.has_sym() and len([d for d in v.shape if is_sym(d)]) < D:
+                if len(v.data) != 1:
+                    raise Unsupported(".at update of a hyperplane with a non-scalar-per-mode value")
+                v = v.data[0]
+        elif isinstance(v, Poly):
+            v = alg.map_atoms(v, unwrap)
     vt = as_tens(_tp(v))
     out = list(t.data)
     cs = T.cshape(t.shape)
@@ -1028,7 +1061,10 @@ def _m_flatten(it, a, k, node):
 
 def _m_astype(it, a, k, node):
     it.event("astype", node, ast.unparse(node) if node is not None else "")
-    return a[0]
+    t = a[0]
+    if isinstance(t, Tens) and _is_float_dtype(k.get("dtype", a[1] if len(a) > 1 else None)):
+        t = Tens(t.shape, t.data, dict(t.meta, float=True))
+    return t
 
 
 def _sum_fold(xs):
@@ -1254,7 +1290,10 @@ def _full(it, a, k, node):
 
 @reg("jnp.array", "jnp.asarray")
 def _array(it, a, k, node):
-    return _arr(a[0])
+    t = _arr(a[0])
+    if _is_float_dtype(k.get("dtype", a[1] if len(a) > 1 else None)):
+        t = Tens(t.shape, t.data, dict(t.meta, float=True))
+    return t
 
 
 @reg("jnp.ndim")
@@ -1447,9 +1486,20 @@ def _arange(it, a, k, node):
         raise Unsupported("arange with step")
     lo_p, hi_p = num_to_poly(lo), num_to_poly(hi)
     n = (hi_p - lo_p).as_number()
+    meta = {"float": True} if _is_float_dtype(k.get("dtype")) else {}
     if n is not None and lo_p.as_number() is not None:
-        return Tens((int(n),), [Poly.const(lo_p.as_number() + i) for i in range(int(n))])
-    return Tens((hi_p - lo_p,), [lo_p + Poly.atom(("idx", "ar"))], {})
+        return Tens((int(n),), [Poly.const(lo_p.as_number() + i) for i in range(int(n))], meta)
+    return Tens((hi_p - lo_p,), [lo_p + Poly.atom(("idx", "ar"))], meta)
+
+
+def _is_float_dtype(d):
+    """an explicit floating / complex dtype argument (jnp.float32, float, x.dtype of an array ...): the values are
+    floats even when they happen to be whole numbers - x ** them goes through lax.pow, not integer_pow"""
+    if d is None:
+        return False
+    nm = getattr(d, "name", None) or (d if isinstance(d, str) else "")
+    nm = str(nm)
+    return any(t in nm for t in ("float", "complex", "dtype_of_array", "inexact")) or d is float or d is complex
 
 
 @reg("jnp.linspace")
@@ -1459,6 +1509,9 @@ def _linspace(it, a, k, node):
     endpoint = k.get("endpoint", True)
     nump = num_to_poly(num)
     div = nump - 1 if endpoint else nump
+    nn = nump.as_number()
+    if nn is not None and Fr(nn).denominator == 1 and 0 < int(nn) <= 64 and not div.is_zero():
+        return Tens((int(nn),), [start + i * (stop - start) / div for i in range(int(nn))], {})
     e = start + Poly.atom(("idx", "lin")) * (stop - start) / div
     return Tens((nump,), [e], {})
 
@@ -2462,3 +2515,30 @@ def _it_chain(it, a, k, node):
 for _n, _op in (("mul", ast.Mult), ("add", ast.Add), ("sub", ast.Sub), ("truediv", ast.Div), ("pow", ast.Pow), ("matmul", ast.MatMult), ("floordiv", ast.FloorDiv), ("mod", ast.Mod)):
     REG["operator." + _n] = _bin_fn(_op)
 REG["operator.neg"] = lambda it, a, k, node: unop(it, ast.USub(), a[0], node)
+
+
+@reg("jnp.count_nonzero")
+def _count_nonzero(it, a, k, node):
+    # number of non-zero entries = sum of the 0/1 indicator "entry != 0" (boolean arrays are their own indicator)
+    t = _arr(a[0]).map(lambda e: as_poly(_b2p(e)))
+    bad = [e for e in t.data if not _is_indicator_valued(e)]
+    if bad:
+        t = t.map(lambda e: 1 - alg.ind("eq", e, Poly()))
+    return _sum(it, [t] + list(a[1:]), k, node)
+
+
+def _is_indicator_valued(e):
+    """products / complements of indicator atoms (what boolean arrays are in this domain)"""
+    for m, c in e.t.items():
+        for a_, x in m:
+            if a_[0] not in ("ind", "mask") and not (a_[0] == "fn" and a_[1] in ("isnan", "isfinite", "isinf")):
+                return False
+    return True
+
+
+# values of the abstract domain are exact (finite) numbers: the nan-aware reductions are the plain ones (nansum = sum,
+# nanmean = mean, see above) and, consistently, the nan / inf predicates are constant
+REG["jnp.isnan"] = _ew1(lambda e: Poly())
+REG["jnp.isinf"] = _ew1(lambda e: Poly())
+REG["jnp.isfinite"] = _ew1(lambda e: Poly.const(1))
+REG["jnp.nan_to_num"] = _ew1(lambda e: e)
